@@ -131,3 +131,17 @@ int32_t CSTR(7compareERKS4_)(struct vstr* self, struct vstr* o){
   for (uint64_t i = 0; i < k; i++) if (self->p[i] != o->p[i]) return (unsigned char)self->p[i] < (unsigned char)o->p[i] ? -1 : 1;
   return m < n ? -1 : m > n ? 1 : 0;
 }
+
+/* copy constructor / destructor / move assignment (declared extern template, not inlined at -O1) */
+void STR(C2ERKS4_)(struct vstr* self, struct vstr* o){
+  self->p = self->u.sso; self->len = 0; self->u.sso[0] = 0;
+  STR(9_M_assignERKS4_)(self, o);
+}
+void STR(D2Ev)(struct vstr* self){ dispose(self); }
+void* STR(aSEOS4_)(struct vstr* self, struct vstr* o){
+  if (self == o) return self;
+  if (is_local(o)) { for (uint64_t i = 0; i <= o->len; i++) self->p[i] = o->p[i]; self->len = o->len; }
+  else { dispose(self); self->p = o->p; self->len = o->len; self->u.cap = o->u.cap; o->p = o->u.sso; }
+  o->len = 0; o->p[0] = 0;
+  return self;
+}
